@@ -36,6 +36,7 @@ KINDS = ["PM", "ST", "KS", "KST", "MB", "Input", "PMInput"]
 MODEL_FOR = {"PM": VehicleModel.PM, "ST": VehicleModel.ST, "KS": VehicleModel.KS, "KST": VehicleModel.KST, "MB": VehicleModel.MB,
              "Input": VehicleModel.KS, "PMInput": VehicleModel.PM}
 XS = "{http://www.w3.org/2001/XMLSchema}"
+CPU_NAMES = ["cpu-x", "Intel(R) Core(TM) i7-8550U CPU @ 1.80GHz", "AMD Ryzen 7 (TM)"]
 
 
 def xsd_states():
@@ -126,10 +127,11 @@ def _mk_single(kind):
         warnings.filterwarnings("ignore")
         pps, vals, ts = build_solution(V, "", 7, kind, 0)
         ct = V.real("computation_time", 1e-6, 1e6)
-        sol_ = Solution(ScenarioID.from_benchmark_id("USA_US101-33_2_T-1", "2020a"), [pps], None, ct, "cpu-x")
+        cpu = CPU_NAMES[V.choice("processor_name", len(CPU_NAMES))]
+        sol_ = Solution(ScenarioID.from_benchmark_id("USA_US101-33_2_T-1", "2020a"), [pps], None, ct, cpu)
         root, back = roundtrip(V, sol_, V.flag("states_reversed_in_document"))
         V.prove("benchmark id read back", back.benchmark_id == sol_.benchmark_id)
-        V.prove("computation time and processor name read back", V.And(V.same(back.computation_time, ct), back.processor_name == "cpu-x",
+        V.prove("computation time and processor name read back", V.And(V.same(back.computation_time, ct), back.processor_name == cpu,
                                                                         back.date is None))
         V.prove("planning problem id and trajectory type read back", V.And(
             len(back.planning_problem_solutions) == 1, back.planning_problem_solutions[0].planning_problem_id == 7,
@@ -225,6 +227,30 @@ def roundtrip_special(V):
     bits = lambda x: struct.pack("<d", float(x))  # noqa: E731
     ok = all(bits(getattr(tr.state_list[i], f)) == bits(vals[(i, f)]) for i in range(2) for f in ("steering_angle", "velocity"))
     V.prove("special double values are read back with identical bits", ok)
+
+
+def _mk_reassigned(first, second):
+    @obligation("C14", f"roundtrip.trajectory-reassigned.{first}-to-{second}", functions=F + ["commonroad/common/solution.py:PlanningProblemSolution.trajectory"],
+                bounds=f"a planning-problem solution built with a {first} trajectory whose trajectory is then replaced through the public setter "
+                       f"by a {second} trajectory of the same vehicle model (2 states, all values symbolic)")
+    def ob(V):
+        warnings.filterwarnings("ignore")
+        pps, _, _ = build_solution(V, "old_", 7, first, 0)
+        other, vals, ts = build_solution(V, "", 7, second, 0)
+        pps.trajectory = other.trajectory
+        V.prove("the solution reports the type of its current trajectory", pps.trajectory_type is other.trajectory_type)
+        sol_ = Solution(ScenarioID.from_benchmark_id("USA_US101-33_2_T-1", "2020a"), [pps], None, None, None)
+        root, back = roundtrip(V, sol_)
+        V.prove("planning problem id and trajectory type read back", V.And(
+            len(back.planning_problem_solutions) == 1, back.planning_problem_solutions[0].planning_problem_id == 7,
+            back.planning_problem_solutions[0].trajectory_type is other.trajectory_type))
+        check_states(V, second, back.planning_problem_solutions[0].trajectory, vals, ts)
+
+    return ob
+
+
+_mk_reassigned("KS", "Input")
+_mk_reassigned("PMInput", "PM")
 
 
 @obligation("C14", "roundtrip.int-values", functions=F, bounds="KS trajectory whose velocity and steering angle are ints")
